@@ -288,4 +288,33 @@ theorem objective_knotScale (hs : List α) (hpos : ∀ h ∈ hs, 0 < h) (P : Fit
   congr 1
   exact penaltySum_knotScale hs hpos P.dims P.smooth P.porder P.ncoef c
 
+
+/-! ## `DtD` of `calc_penalty` times the rescaled smoothing -/
+
+/-- if every entry of `D'` is the entry of `D` divided by `h^p`, every entry of `D'ᵀD'` is that of `DᵀD` divided by `h^(2p)` -/
+theorem dtd_scale (h : α) (p : Nat) (D D' : Tab2 α) (hn : D'.n = D.n) (hm : D'.m = D.m)
+    (he : ∀ r c, D'.get r c = D.get r c / h ^ p) (i j : Nat) :
+    (dtd D').get i j = (dtd D).get i j / h ^ (2 * p) := by
+  by_cases hin : i < D.m ∧ j < D.m
+  · unfold dtd
+    rw [hm, hn, tab2_get_ofFn _ hin.1 hin.2, tab2_get_ofFn _ hin.1 hin.2, sumTo_eq_sum, sumTo_eq_sum, Finset.sum_div]
+    refine sum_congr rfl (fun q _ => ?_)
+    rw [L.mul_eq, L.mul_eq, he, he, div_mul_div_comm, ← pow_add, two_mul]
+  · rw [tab2_get_out _ (by simpa [dtd, hm] using hin), tab2_get_out _ (by simpa [dtd] using hin), L.zero_eq, zero_div]
+
+/-- what `add_penalty_term` adds for a dimension on a rescaled axis with smoothing `λ h^(2p)` is what it adds at scale 1
+with smoothing `λ` — both for the plain (`mono = 0`) and the T-spline (`mono = 1`) finite-difference matrix -/
+theorem penalty_chunk_knot_scale (h : α) (hh : h ≠ 0) (lam : α) (t : Int → α) (order p n i j : Nat) :
+    lam * h ^ (2 * p) * (dtd (finiteDiff (scaleKnots h t) order p n)).get i j = lam * (dtd (finiteDiff t order p n)).get i j
+    ∧ lam * h ^ (2 * p) * (dtd (finiteDiffMono (scaleKnots h t) order p n)).get i j
+        = lam * (dtd (finiteDiffMono t order p n)).get i j := by
+  have hp : h ^ (2 * p) ≠ 0 := pow_ne_zero _ hh
+  constructor
+  · rw [dtd_scale h p (finiteDiff t order p n) (finiteDiff (scaleKnots h t) order p n) rfl rfl
+      (finiteDiff_knot_scale' h hh t order p n)]
+    field_simp
+  · rw [dtd_scale h p (finiteDiffMono t order p n) (finiteDiffMono (scaleKnots h t) order p n) rfl rfl
+      (finiteDiffMono_knot_scale' h hh t order p n)]
+    field_simp
+
 end PsV
